@@ -109,7 +109,7 @@ theorem sepB_after_clone (f : Forest) (inv : f.Inv) (C : HTree) (f' : Forest)
   refine ⟨⟨g3, fun a ha => (h4 a ha).2⟩, fun r hr => ⟨g4 r hr, ?_⟩⟩
   intro a ha
   have h1 := inv.below a (handles_subset_handlesList hr a ha)
-  have hC := h4 C.handle (handle_mem_handles C)
+  have hC := h4 C.handle (fc_handle_mem_handles C)
   omega
 
 end XotModel
